@@ -206,6 +206,10 @@ def run_chunk(common, ch, cfgs_of, maxlen, label="engine", sanitize=False):
     dump = os.path.join(d, "dump.%d.txt" % os.getpid())
     with open(dump, "w") as fh:
         fh.write(p.stdout)
+    st = [l for l in p.stdout.split("\n") if l.startswith("SELFTEST ")]
+    if st and not st[0].startswith("SELFTEST ok"):
+        K.error = "input classes of the tree under test fail the harness self-test:" + st[0][12:400]
+        return K
     if "unknown" in p.stdout:
         bad = [l for l in p.stdout.split("\n") if "unknown" in l][:3]
         K.error = "untranslatable rule in table dump: " + " ;; ".join(bad)
